@@ -199,6 +199,11 @@ class MonitoredList(MonitoredContainer, list):
         for item in list(items):
             self._add_item(item)
 
+    def __iadd__(self, items):
+        # the in-place operator may reach the container through any reference, not only through `owner.field += ...`
+        self.extend(items)
+        return self
+
     def append(self, item):
         self._add_item(item)
 
@@ -251,6 +256,13 @@ class MonitoredSet(MonitoredContainer, set):
 
     def add(self, value):
         self._add_item(value)
+
+    def __ior__(self, other):
+        # the in-place operator may reach the container through any reference, not only through `owner.field |= ...`
+        if not isinstance(other, (set, frozenset)):
+            return NotImplemented
+        self.update(other)
+        return self
 
     def update(self, *values):
         for iterable in values:
